@@ -117,6 +117,23 @@ def scripted():
         o("iso_from", "d1", cm="M1", ca="A1", ct="T80.5", cy="tp"), o("iso_from", "d2", ct="T0"),
         o("iso_del", "d1", "I10", by="retrieved"), o("iso_del", "d1", "I12", by="retrieved"), o("iso_del", "d1", "I2", by="id"),
         o("iso_from", "d1", ct="T0"), o("iso_from", "d1")]))
+    # the exact string is the key: names that differ only in letter case, names that are aliases of other adsorbates
+    H.append(("names_case_and_aliases", [
+        o("ads_to", "d1", "A3", "a1", ai=True), o("ads_to", "d2", "A4", "a0"), o("ads_to", "d2", "A3", "a0"), o("ads_from", "d2"),
+        o("ads_del", "d2", "A4", by="name"), o("ads_from", "d2"), o("ads_del", "d2", "A4", by="name"), o("ads_to", "d2", "A4", "a1", ow=True, ai=True),
+        o("ads_del", "d2", "A3", by="name"), o("ads_from", "d2"), o("ads_from", "d1"),
+        o("ads_to", "d1", "A5", "a0"), o("ads_from", "d1"), o("ads_del", "d1", "A5", by="name"), o("ads_from", "d1"), o("ads_del", "d1", "A5", by="name"),
+        o("ads_to", "d1", "A5", "a1", ai=True), o("ads_to", "d1", "A5", "a0", ow=True), o("ads_del", "d1", "A5", by="obj"), o("ads_from", "d1"),
+        o("ads_to", "d1", "A4", "a0"), o("ads_del", "d1", "A3", by="obj"), o("ads_from", "d1"), o("ads_del", "d1", "A4", by="name"),
+        o("mat_to", "d1", "M1", "m1", ai=True), o("mat_to", "d1", "M2", "m0"), o("mats_from", "d1"), o("mat_to", "d1", "M2", "m1", ow=True),
+        o("mat_del", "d1", "M2", by="name"), o("mats_from", "d1"), o("mat_del", "d1", "M2", by="name"), o("mat_del", "d1", "M2", by="obj"),
+        o("iso_to", "d1", "I2", aa=True), o("iso_to", "d1", "I1", aa=True), o("iso_from", "d1", cm="M2"), o("iso_from", "d1", cm="M1"),
+        o("iso_to", "d1", "I2", am=True, aa=True), o("mats_from", "d1"), o("iso_from", "d1", cm="M2"), o("mat_del", "d1", "M1", by="name"),
+        o("apt_to", "d1", "pb", "t2"), o("apt_from", "d1"), o("apt_del", "d1", "pa", by="name"), o("apt_to", "d1", "pa", "t1", ow=True),
+        o("apt_del", "d1", "pb", by="name"), o("apt_del", "d1", "pb", by="name"), o("apt_from", "d1"),
+        o("mpt_to", "d1", "pn", "t1"), o("mpt_to", "d1", "pn", "t2", ow=True), o("mpt_del", "d1", "pm", by="name"), o("mpt_from", "d1"), o("mpt_del", "d1", "pn", by="name"),
+        o("ity_to", "d1", "tq", "t1"), o("ity_from", "d1"), o("ity_del", "d1", "tq", by="name"), o("ity_del", "d1", "tq", by="name"), o("ity_from", "d1"),
+        o("ipt_to", "d1", "pj", "t1"), o("ipt_to", "d1", "pi", "t2"), o("ipt_del", "d1", "pj", by="name"), o("ipt_from", "d1")]))
     # a later session on the same file
     H.append(("new_session", [o("iso_to", "d1", "I1", am=True, aa=True), o("session"), o("iso_from", "d1"), o("iso_to", "d1", "I3", am=True, aa=True),
                               o("iso_to", "d1", "I3"), o("iso_to", "d1", "I2", am=True, aa=True), o("iso_to", "d1", "I2", am=True), o("iso_from", "d1")]))
@@ -144,13 +161,24 @@ def scripted():
 
 
 def lift(hist, rng):
-    """Rename the isotherm keys of a generated history into the full universe (same references where possible)."""
+    """Rename keys of a generated history into the full universe: isotherms into the other kinds / value classes /
+    representations; adsorbate-only and type-only operations onto the names that differ only in letter case or are
+    aliases of other adsorbates (A3 / A4 / A5, pb, pn, tq)."""
     m = {"I1": rng.choice(["I1", "I7", "I10", "I10"]), "I2": rng.choice(["I2", "I5", "I6", "I11", "I12"]), "I3": rng.choice(["I3", "I4", "I12"])}
+    ads = rng.choice([{"A1": "A3", "A2": "A4"}, {"A1": "A4", "A2": "A3"}, {"A2": "A5"}, {"A1": "A5", "A2": "A3"}])
     out = []
     for o in hist:
         o = dict(o)
         if o["op"] in ("iso_to", "iso_del"):
             o["k"] = m.get(o["k"], o["k"])
+        elif o["op"] in ("ads_to", "ads_del"):
+            o["k"] = ads.get(o["k"], o["k"])
+        elif o["op"] in ("apt_to", "apt_del") and rng.random() < 0.5:
+            o["k"] = "pb"
+        elif o["op"] in ("mpt_to", "mpt_del") and rng.random() < 0.5:
+            o["k"] = "pn"
+        elif o["op"] in ("ity_to", "ity_del") and o["k"] == "tm" and rng.random() < 0.5:
+            o["k"] = "tq"
         out.append(o)
     return out
 
